@@ -28,6 +28,8 @@ type Scenario struct {
 // ReplayFile is the on-disk form of a violation (and of its replay input).
 type ReplayFile struct {
 	Property    string   `json:"property"`
+	Pkg         string   `json:"pkg,omitempty"`
+	Scenario    string   `json:"scenario,omitempty"`
 	Seed        uint64   `json:"seed"`
 	K           int      `json:"k"`
 	Tier        string   `json:"tier"`
@@ -457,8 +459,11 @@ func mainSearch(t *testing.T, prop string, sc Scenario, tier string) {
 				seenKnownClass[o.class] = true
 			}
 			vals := tape.Values()
-			rf := ReplayFile{Property: prop, Seed: seed, K: k, Tier: tier, Class: o.class, Msg: o.msg,
+			rf := ReplayFile{Property: prop, Scenario: prop, Pkg: os.Getenv("VERIF_PKG"), Seed: seed, K: k, Tier: tier, Class: o.class, Msg: o.msg,
 				Decisions: vals, OriginalLen: len(vals)}
+			if id := os.Getenv("VERIF_PROPERTY_ID"); id != "" {
+				rf.Property = id
+			}
 			if tape.Over {
 				// decision list was truncated: replay from the seed instead
 				rf.Decisions = nil
